@@ -22,6 +22,8 @@ Core Lean only: this file is linked into the native model driver.
 -/
 namespace Woodpile.RoughTlv
 
+deriving instance DecidableEq for Except
+
 /-! ### Numbers -/
 
 def i32Max : Nat := 2147483647
